@@ -11,7 +11,8 @@ CONSTANTS CWs, TWs, SameW,
           TAlpha, MaxTLen, KT,        \* type n-gram pool (type codes)
           DAlpha, MaxDLen, KD,        \* dictionary word pool
           KTotal, TextAlpha, MaxText, MinText, ZeroHit,
-          WMode                       \* 0: fingerprint weights; 1: "cancelling" weights (see CancelNg / CancelDict)
+          WMode                       \* 0: fingerprint weights; 1: "cancelling" weights (see CancelNg / CancelDict);
+                                      \* 2: "right-only": zero for every boundary left of the entry's end (long vectors with leading zeros)
 VARIABLES cw, tw, cset, tset, dset
 
 Pool(alpha, lo, hi) == SeqsOf(alpha, lo, hi)
@@ -66,11 +67,11 @@ Model0 ==
   LET cs == SetToSeq(cset)  ts == SetToSeq(tset)  ds == SetToSeq(dset) IN
   [bias |-> 0, cw |-> cw, tw |-> tw,
    cng |-> [i \in 1..Len(cs) |-> [ng |-> cs[i], w |-> IF WMode = 1 THEN CancelNg(cs[i], cset, cs, cw, 1)
-                                                      ELSE [k \in 1..(2 * cw - Len(cs[i]) + 1) |-> FP(1, i, k)]]],
+                                                      ELSE [k \in 1..(2 * cw - Len(cs[i]) + 1) |-> IF WMode = 2 /\ k <= cw THEN 0 ELSE FP(1, i, k)]]],
    tng |-> [i \in 1..Len(ts) |-> [ng |-> ts[i], w |-> IF WMode = 1 THEN CancelNg(ts[i], tset, ts, tw, 2)
-                                                      ELSE [k \in 1..(2 * tw - Len(ts[i]) + 1) |-> FP(2, i, k)]]],
+                                                      ELSE [k \in 1..(2 * tw - Len(ts[i]) + 1) |-> IF WMode = 2 /\ k <= tw THEN 0 ELSE FP(2, i, k)]]],
    dict |-> [i \in 1..Len(ds) |-> [ng |-> ds[i], w |-> IF WMode = 1 THEN CancelDict(ds[i], dset, ds, cset, cs, cw)
-                                                       ELSE [k \in 1..(Len(ds[i]) + 1) |-> FP(3, i, k)]]],
+                                                       ELSE [k \in 1..(Len(ds[i]) + 1) |-> IF WMode = 2 /\ k <= Len(ds[i]) THEN 0 ELSE FP(3, i, k)]]],
    tags |-> <<>>]
 
 Texts == SeqsOf(TextAlpha, MinText, MaxText)
